@@ -151,7 +151,11 @@ AbClose(abl, dq) == abl <= 1000 + 3000 * RelTpm(dq)
 (* object histories of a free delta: the object holds a tiny delta (earlier fit to a sample whose  *)
 (* optimum is at delta -> 0, or constructed so).  Where the fresh fit found an interior delta      *)
 (* (0.05 .. 50) the fit of the object with a past must be a local minimiser as well and agree.     *)
-FreeHistories == {"after_small_delta_fit", "constructed_small_delta"}
+FreeHistories == {"after_small_delta_fit", "constructed_small_delta",
+                  \* ... or a huge one: left by an earlier fit whose search ran away (> 1e10, checked by
+                  \* the driver), or given to the constructor (at least one of the three values per case)
+                  "after_runaway_fit"}
+HugeConstructed == {"constructed_delta_1e14", "constructed_delta_1e16", "constructed_delta_1e20"}
 Interior(dq) == 50000 <= dq /\ dq <= 50000000
 (* local minimum: E(delta) <= E(delta +- h) with h = 1e-3*delta + 5e-4 (>= 2x the          *)
 (* optimiser's uncertainty); em / ep = (E(delta -+ h) - E(delta)) / E(delta) x 10^12,      *)
